@@ -30,3 +30,107 @@ Proof. exact relocate_no_underflow. Qed.
 Theorem C04_cursor_boundary_no_panic :
   forall toks c, input_boundary (raw_text toks) c -> process_cursor_ok toks c = true.
 Proof. exact process_cursor_ok_boundary. Qed.
+
+(* the grammar model: every leaf loop of the parser terminates within (remaining tokens + 1) iterations, never lowers
+   pass_index and returns an errored state unchanged; every op handed to op_until consumes a token while the loop continues;
+   over the whole (mutually recursive) grammar pass_index never decreases; the arithmetic panic sites cannot fire *)
+From PasfmtVerif Require Import Model.ParserGrammar Proofs.ParserKernelProofs Proofs.ParserGrammarProofs Proofs.ParserGrammarRunProofs.
+Theorem C04_parser_leaves_terminate :
+  forall pass : list nat,
+  leaf_ok pass (next_token pass) /\
+  leaf_ok pass (skip_pair pass) /\
+  leaf_ok pass (take_until pass (no_more_separators pass)) /\
+  leaf_ok pass (fix_next_eq pass) /\
+  leaf_ok pass (parse_parameter_list pass) /\
+  leaf_ok pass (parse_expression pass) /\
+  leaf_ok pass (parse_routine_header pass) /\
+  leaf_ok pass (finish_logical_line pass) /\
+  leaf_ok pass (make_unfinished_line pass) /\
+  leaf_ok pass (parse_property_declaration pass) /\
+  leaf_ok pass (consolidate_portability_directives pass) /\
+  (forall lvl : clevel, leaf_ok pass (take_separators_on_last_line pass lvl)) /\
+  leaf_ok pass (skip_token pass) /\
+  (forall wsnl : list bool, leaf_ok pass (parse_asm_instructions pass wsnl)).
+Proof. exact leaves_terminate. Qed.
+
+Theorem C04_parser_ops_consume :
+  forall pass : list nat,
+  op_ok pass (routine_header_op pass) /\
+  op_ok pass (fun s : pstate pass => (property_op pass s, true)) /\
+  op_ok pass (fun s : pstate pass => (parse_exports_op pass s, true)) /\
+  op_ok pass (fun s : pstate pass => (next_token pass s, true)) /\
+  (forall p : KeywordKind -> bool,
+   op_ok pass (fun s : pstate pass => (keyword_consolidator pass p s, true))) /\
+  op_ok pass (fun s : pstate pass => (enum_op pass s, true)) /\
+  op_ok pass (fun s : pstate pass => (import_op pass s, true)).
+Proof. exact grammar_ops_ok. Qed.
+
+Theorem C04_parser_pass_index_monotone :
+  forall (pass : list nat) (wsnl : list bool) (fuel : nat) (c : call) (s : pstate pass),
+  (pidx pass s <= pidx pass (run pass wsnl fuel c s))%nat.
+Proof. exact run_pidx_monotone. Qed.
+
+Theorem C04_parser_error_is_final :
+  forall (pass : list nat) (wsnl : list bool) (fuel : nat) (c : call) (s : pstate pass),
+  ps_err pass s <> None -> run pass wsnl fuel c s = s.
+Proof. exact run_error_unchanged. Qed.
+
+Theorem C04_parser_next_token_fuel :
+  forall (pass : list nat) (fuel : nat) (s : pstate pass),
+  ps_err pass s = None ->
+  (remaining pass s + 1 <= fuel)%nat ->
+  ps_err pass (next_token_go pass fuel s) <> Some E_fuel /\
+  (pidx pass s <= pidx pass (next_token_go pass fuel s))%nat.
+Proof. exact next_token_go_enough_fuel. Qed.
+
+Theorem C04_parser_skip_pair_fuel :
+  forall (pass : list nat) (fuel : nat) (p b g : N) (chev : bool) (s : pstate pass),
+  ps_err pass s = None ->
+  (remaining pass s + 1 <= fuel)%nat ->
+  ps_err pass (skip_pair_go pass fuel p b g chev s) <> Some E_fuel /\
+  (pidx pass s <= pidx pass (skip_pair_go pass fuel p b g chev s))%nat.
+Proof. exact skip_pair_go_enough_fuel. Qed.
+
+Theorem C04_parser_op_until_fuel :
+  forall (pass : list nat) (fuel : nat) (pred : pstate pass -> bool)
+    (op : pstate pass -> pstate pass * bool) (s : pstate pass),
+  op_ok pass op ->
+  ps_err pass s = None ->
+  (remaining pass s + 1 <= fuel)%nat ->
+  ps_err pass (op_until_go pass fuel pred op s) <> Some E_fuel /\
+  (pidx pass s <= pidx pass (op_until_go pass fuel pred op s))%nat.
+Proof. exact op_until_go_enough_fuel. Qed.
+
+Theorem C04_parser_parameter_list_fuel :
+  forall (pass : list nat) (fuel : nat) (p0 : N) (consumed : bool) (s : pstate pass),
+  ps_err pass s = None ->
+  (remaining pass s + 1 <= fuel)%nat ->
+  ps_err pass (parameter_list_go pass fuel p0 consumed s) <> Some E_fuel /\
+  (pidx pass s <= pidx pass (parameter_list_go pass fuel p0 consumed s))%nat.
+Proof. exact parameter_list_go_enough_fuel. Qed.
+
+Theorem C04_parser_expression_fuel :
+  forall (pass : list nat) (fuel : nat) (s : pstate pass),
+  ps_err pass s = None ->
+  (remaining pass s + 1 <= fuel)%nat ->
+  ps_err pass (parse_expression_go pass fuel s) <> Some E_fuel /\
+  (pidx pass s <= pidx pass (parse_expression_go pass fuel s))%nat.
+Proof. exact parse_expression_go_enough_fuel. Qed.
+
+Theorem C04_parser_directive_lookahead_no_panic :
+  forall pass : list nat,
+  increasing pass -> forall s : pstate pass, is_directive_before_next_token pass s <> None.
+Proof. exact is_directive_before_next_token_no_panic. Qed.
+
+Theorem C04_parser_directive_lookbehind_no_panic :
+  forall pass : list nat,
+  increasing pass -> forall s : pstate pass, is_directive_after_prev_token pass s <> None.
+Proof. exact is_directive_after_prev_token_no_panic. Qed.
+
+Theorem C04_parser_portability_no_panic :
+  forall (pass : list nat) (s : pstate pass),
+  at_start pass s = false ->
+  ps_err pass s = None -> ps_err pass (consolidate_portability_directives pass s) = None.
+Proof. exact consolidate_portability_directives_no_panic. Qed.
+
+
